@@ -521,9 +521,12 @@ def c17_jobs(tier, rng):
     shapes = edge_shapes()
     stats['edge_shapes'] = len(shapes)
     if tier == 'quick':
-        core = [s for s in shapes if s[1] == [1, 2] and s[2] == (2, 2) and s[5] in (None, 0)]
+        # dense core: every estimate type x class (x offset in {SE2, None} x offset_id in {None, 0}) on one ids/info choice,
+        # every ids x information.shape on one estimate choice, then a seeded random remainder
+        core = [s for s in shapes if s[1] == [1, 2] and s[2] == (2, 2) and s[4] in (None, 'SE2') and s[5] in (None, 0)]
+        core += [s for s in shapes if s[3] == 'R2' and s[4] in (None, 'SE2') and s[5] is None and s not in core]
         rest = [s for s in shapes if s not in core]
-        sub = core[::3] + rng.sample(rest, 110)
+        sub = core + rng.sample(rest, 50)
     else:
         sub = shapes
     eobjs = [d_edge(*s) for s in sub]
